@@ -76,6 +76,8 @@ type fn struct {
 	accesses []access
 	calls    []callsite
 	spawns   []string // functions started with `go`
+	wgAdds   map[string]token.Position // sync.WaitGroup.Add calls in the body of this function, by receiver expression
+	wgDones  map[string]bool           // sync.WaitGroup.Done calls in the body of this function, by receiver expression
 }
 
 var (
@@ -285,7 +287,29 @@ func (w *walker) expr(e ast.Node, written map[*ast.SelectorExpr]bool) {
 	})
 }
 
+func isWaitGroup(t types.Type) bool {
+	if t == nil {
+		return false
+	}
+	s := t.String()
+	return s == "sync.WaitGroup" || s == "*sync.WaitGroup"
+}
+
 func (w *walker) call(c *ast.CallExpr) {
+	if sel, ok := c.Fun.(*ast.SelectorExpr); ok && (sel.Sel.Name == "Add" || sel.Sel.Name == "Done") && isWaitGroup(w.info.TypeOf(sel.X)) {
+		key := types.ExprString(sel.X)
+		if sel.Sel.Name == "Add" {
+			if w.f.wgAdds == nil {
+				w.f.wgAdds = map[string]token.Position{}
+			}
+			w.f.wgAdds[key] = fset.Position(c.Pos())
+		} else {
+			if w.f.wgDones == nil {
+				w.f.wgDones = map[string]bool{}
+			}
+			w.f.wgDones[key] = true
+		}
+	}
 	// a shared container handed to a call is read (its elements may be) with the locks held now; append / delete / copy
 	// into it write its elements
 	for i, a := range c.Args {
@@ -590,6 +614,37 @@ func main() {
 		w := &walker{info: t.pkg.TypesInfo, f: f, held: lockset{}, pkg: t.pkg}
 		w.stmts(t.body.List)
 	}
+	// WaitGroup discipline: the Add that accounts for a goroutine happens BEFORE the `go` statement, never inside the goroutine
+	// itself (a body started with `go` that both Adds to and Dones the same WaitGroup)
+	// (otherwise Wait can run before Add: the waiter returns while the goroutine is still starting)
+	var wgMisuse []string
+	spawned := map[string]bool{}
+	for _, f := range funcs {
+		for _, sp := range f.spawns {
+			spawned[sp] = true
+		}
+	}
+	spNames := []string{}
+	for n := range spawned {
+		spNames = append(spNames, n)
+	}
+	sort.Strings(spNames)
+	for _, n := range spNames {
+		if f := funcs[n]; f != nil {
+			// the goroutine accounts for ITSELF: Add and Done of the same WaitGroup in the body that `go` starts
+			keys := []string{}
+			for k := range f.wgAdds {
+				if f.wgDones[k] {
+					keys = append(keys, k)
+				}
+			}
+			sort.Strings(keys)
+			for _, k := range keys {
+				pos := f.wgAdds[k]
+				wgMisuse = append(wgMisuse, fmt.Sprintf("%s.Add in %s (%s:%d)", k, n, shortPath(pos.Filename), pos.Line))
+			}
+		}
+	}
 	// roles and their roots
 	roots := map[string][]string{
 		"api":    {"Server.Start", "Server.Stop", "Server.Restart", "ConnManager.Conns", "ConnManager.ConnByUUID"},
@@ -713,6 +768,22 @@ func main() {
 				locIdx[r.loc], roleC[r.role], r.write, strings.Join(ls, "; "), r.own, sep, r.loc, map[bool]string{true: "write", false: "read"}[r.write], r.locks.String(), r.where)
 		}
 		sb.WriteString("].\n\nTheorem " + tname + "_ok : check " + tname + " = true.\nProof. vm_compute. reflexivity. Qed.\n")
+		if tname == "table" {
+			sb.WriteString("\n(* sync.WaitGroup.Add calls that are executed INSIDE a function started with `go` (source lines); the discipline wants none *)\n")
+			sb.WriteString("Definition wg_add_in_spawned : list nat := [")
+			for i, m := range wgMisuse {
+				if i > 0 {
+					sb.WriteString("; ")
+				}
+				line := m[strings.LastIndex(m, ":")+1 : len(m)-1]
+				sb.WriteString(line)
+			}
+			sb.WriteString("].\n")
+			for _, m := range wgMisuse {
+				sb.WriteString("(* " + m + " *)\n")
+			}
+			sb.WriteString("Theorem wg_discipline_ok : wg_add_in_spawned = [].\nProof. reflexivity. Qed.\n")
+		}
 		if err := os.WriteFile(path, []byte(sb.String()), 0o644); err != nil {
 			fmt.Fprintln(os.Stderr, err)
 			os.Exit(2)
@@ -722,6 +793,9 @@ func main() {
 	write(outPath, "Access.v", "table", func(r rowT) bool { return r.loc != "handler-state" })
 	write(strings.TrimSuffix(outPath, "Access.v")+"HandlerAccess.v", "HandlerAccess.v", "handler_table", func(r rowT) bool { return r.loc == "handler-state" })
 	// a machine-readable copy for the driver (diagnostics, pair search)
+	for _, m := range wgMisuse {
+		fmt.Printf("WGMISUSE\t%s\n", m)
+	}
 	for _, r := range rows {
 		fmt.Printf("%s\t%s\t%v\t%s\t%v\t%s\n", r.loc, r.role, r.write, r.locks.String(), r.own, r.where)
 	}
